@@ -54,13 +54,17 @@ type State struct {
 	larr   map[*ssa.Alloc]*LocalArr
 	defers []*ssa.Defer
 	held   map[string]bool
+	fieldIdent map[string]string // field location -> identity of the []byte stored there during this call
 	frozen map[string]string // backing-array identity -> Bool term: handed over on a channel on this path
 }
 
 func (s *State) clone() *State {
-	n := &State{hv: s.hv, reach: s.reach, top: s.top, heap: map[string]string{}, ghost: map[string]Val{}, larr: map[*ssa.Alloc]*LocalArr{}, held: map[string]bool{}, frozen: map[string]string{}}
+	n := &State{hv: s.hv, reach: s.reach, top: s.top, heap: map[string]string{}, ghost: map[string]Val{}, larr: map[*ssa.Alloc]*LocalArr{}, held: map[string]bool{}, frozen: map[string]string{}, fieldIdent: map[string]string{}}
 	for k, v := range s.frozen {
 		n.frozen[k] = v
+	}
+	for k, v := range s.fieldIdent {
+		n.fieldIdent[k] = v
 	}
 	for k, v := range s.heap {
 		n.heap[k] = v
@@ -973,6 +977,20 @@ func (e *Exec) mergeStates(sts []*State, conds []string) *State {
 			t = sIte(conds[i], sts[i].hv, t)
 		}
 		n.hv = e.S.Define("hv", "Int", t)
+	}
+	// identities of buffers stored in fields: kept only when all paths agree
+	for k, v := range sts[0].fieldIdent {
+		same := true
+		for _, o := range sts[1:] {
+			if o.fieldIdent[k] != v {
+				same = false
+			}
+		}
+		if same {
+			n.fieldIdent[k] = v
+		} else {
+			delete(n.fieldIdent, k)
+		}
 	}
 	// ownership flags (absent = false)
 	{
